@@ -357,11 +357,13 @@ impl Engine for DupStreamEngine {
                             tokio::pin!(fut);
                             let _ = futures_util::poll!(fut.as_mut());
                         }
-                        2 => {
-                            if let Ok(s) = client.connect(64).await {
-                                drop(s);
+                        2 => match tokio::time::timeout(Duration::from_secs(5), client.connect(64)).await {
+                            Ok(Ok(s)) => drop(s),
+                            Ok(Err(_)) => {}
+                            Err(_) => {
+                                return Some(format!("client #{i}'s connect got no answer within 5 virtual seconds (listener stream ended: {})", ended.load(std::sync::atomic::Ordering::SeqCst)));
                             }
-                        }
+                        },
                         _ => {
                             let _ = tokio::time::timeout(Duration::from_millis(2), client.connect(0)).await;
                         }
